@@ -538,6 +538,14 @@ func (in *Interp) assert(cond *smt.Term, id string, detail string) {
 // path are canonicalised (lexicographically least input in the violating class).
 func (in *Interp) recordViolation(id, detail string, m []uint64, cond *smt.Term) {
 	p := in.P
+	if in.stubDiverged(m) {
+		// the model relies on an uninterpreted conversion failing (or succeeding)
+		// where the real function does the opposite on these very bytes: an
+		// artefact of the over-approximation, not an input of the real program
+		p.failDetail = nil
+		in.W.Stats.StubViolations++
+		return
+	}
 	v := Violation{AssertID: id, Detail: detail, Decisions: append([]int32{}, p.taken...), Notes: append([]string{}, p.notes...), Foreign: append([]string{}, p.foreign...)}
 	if in.W.canonBudget() {
 		var extra *smt.Term
